@@ -29,6 +29,16 @@ def validate(wd, groups: list[dict], *, seeds=(1, 2), layout="edge", ternary=(),
              module="TV.tla", timeout=3000, shards: int = NCPU, diag: bool = False) -> tuple[dict, dict]:
     """Return ({record id: verdict}, stats). Raises MachineryError unless every record got a verdict."""
     groups = [g for g in groups if g["recs"]]
+    # a group is validated on one shard: split the groups of larger graphs into chunks of records (the model tables are
+    # rebuilt per chunk, which is cheap next to evaluating the records) so that one heavy graph cannot serialise a run
+    split = []
+    for g in groups:
+        size = 6 if len(g["n"]) >= 6 else 12 if len(g["n"]) == 5 else 0
+        if size and len(g["recs"]) > size:
+            split += [dict(g, recs=g["recs"][i:i + size]) for i in range(0, len(g["recs"]), size)]
+        else:
+            split.append(g)
+    groups = split
     if not groups:
         return {}, {"generated": 0, "distinct": 0, "shards": 0}
     # longest-processing-time-first assignment of groups to shards
